@@ -234,12 +234,15 @@ class DelimSource(Source[Iterable[str]]):
                 if after_cr and text[0] == '\n': text = text[1:]
                 if not text: after_cr = False; continue
                 after_cr = text[-1] == '\r'
-                lines = text.splitlines()
+                # a line ends with "\r\n", "\r" or "\n" (as the lines of a file on disk do). We don't use str.splitlines
+                # because it also ends lines on characters that are data (e.g., "\x0c", "\x85" and "\u2028").
+                lines = text.replace('\r\n','\n').replace('\r','\n').split('\n')
                 if pending:
                     lines[0] = pending + lines[0]
                     pending = None
+                final = lines.pop()
                 if text[-1] not in '\r\n':
-                    pending = lines.pop()
+                    pending = final
                 yield from lines
         else:
             for text in filter(None,self._source.read()):
